@@ -247,6 +247,17 @@ CHECKS["C07"] = {
     "bounds": {"quick": "extension block <= 10 bytes free, or one concrete extension + <= 7-8 free bytes", "thorough": "<= 12 free bytes / concrete + 10"},
 }
 
+CHECKS["C16"] = {
+    "harnesses": [H("c16.VH_socks5", {"L": 16, "ROUNDS": 1, "CFG": i}, {"L": 20, "ROUNDS": 2, "CFG": i}, variant=f"cfg{i}", weight=3,
+                    covers=(["refused", "outbound action attempted"] if i != 4 else ["refused"]) + (["authenticated"] if i in (2, 3) else []))
+                  for i in range(5)],
+    "level_text": "bounded model checking of the real Socks5Handler.Provision + Handle with the go-socks5 library's ServeConn, method negotiation, user/password authentication, request parsing and rule check executed from SSA over an arbitrary client byte stream; the three outbound actions (and the resolver) are intercepted; asserted: an outbound action is started only for an enabled command and, when credentials are configured, only if the user/password bytes on the wire equal a configured pair (re-parsed independently per RFC 1928/1929)",
+    "level_note": "five configurations (default commands; CONNECT only; BIND with one user; ASSOCIATE+BIND with two users incl. an empty password; a credential map holding only an empty user name); client stream <= 16 (quick) / 20 (thorough) bytes delivered in 1-2 reads - enough for greeting, a 1-2 byte user and password and an IPv4 or short FQDN request; the native twin observes the outbound attempt through the reply code",
+    "assumptions": ["handleConnect / handleBind / handleAssociate and DNSResolver.Resolve of go-socks5 are intercepted sinks", "zap/log are no-op stubs"],
+    "outside": ["streams longer than the bound (long user names, IPv6 requests in the quick tier)", "placeholders in credentials", "what the outbound actions do once started"],
+    "bounds": {"quick": "stream <= 16 bytes, one read", "thorough": "stream <= 20 bytes, two reads"},
+}
+
 NOT_APPLICABLE = {
     "C15": "Caddyfile->JSON adaptation and JSON round-trip run through the Caddyfile lexer, encoding/json reflection and Caddy's module loader over an unbounded configuration grammar; this cannot be encoded by a hand-written go/ssa symbolic executor (reflection refused, inputs are programs of a grammar, not bounded bytes/integers)",
 }
